@@ -261,7 +261,7 @@ theorem commitIndex_inv {s : Schema} {t nm cols isPk uniq} (h : Inv s)
     cases nm with
     | none =>
       simp only [objNames, commitIndex, List.count_append, List.filterMap_append, Option.map_none, Option.toList_none,
-        List.filterMap_cons, List.filterMap_nil, List.append_nil, List.count_nil] at this ⊢
+        List.filterMap_cons, List.filterMap_nil, List.append_nil] at this ⊢
       omega
     | some p =>
       simp only [objNames, commitIndex, List.count_append, List.filterMap_append, Option.map_some, Option.toList_some,
@@ -292,50 +292,68 @@ theorem commitIndex_lenInv {d} {s : Schema} {t nm cols isPk uniq} (h : LenInv d 
         exact hn p rfl his
   · exact h1.fks
 
+theorem indexNameOf_len (d t arg cols isPk isUnique m2m) :
+    ∀ p, indexNameOf d t arg cols isPk isUnique m2m = some p → p.2 = .norm → p.1.length ≤ maxNameLen d := by
+  intro p hp hnorm
+  unfold indexNameOf at hp
+  split at hp
+  · cases hp; cases hnorm
+  · split at hp
+    · cases hp
+    · cases hp; exact defaultIndexName_length ..
+
+/-- the only two outcomes of a successful `add_index`: nothing changes, or one index is committed under a fresh name -/
+theorem addIndex_ok {d} {s s' : Schema} {t arg cols isPk isUnique m2m}
+    (hs : addIndex d s t arg cols isPk isUnique m2m = .ok s') :
+    s' = s ∨ (nameTaken s ((indexNameOf d t arg cols isPk isUnique m2m).map (·.1)) = false ∧
+      ∃ u, s' = commitIndex s t (indexNameOf d t arg cols isPk isUnique m2m) cols isPk u) := by
+  unfold addIndex at hs
+  cases hf : findTable s t with
+  | none => simp [hf] at hs
+  | some tbl =>
+    simp only [hf] at hs
+    by_cases h1 : cols.any (fun c => !(tableCols s t).any (·.name == c)) = true
+    · simp [h1] at hs
+    · by_cases h2 : arg = .false
+      · simp [h1, h2] at hs
+      · simp only [h1, h2, if_false] at hs
+        cases hx : (tableIdx s t).find? (·.cols == cols) with
+        | some ix =>
+          simp only [hx, sameIndex] at hs
+          by_cases hsame : ix.name = (indexNameOf d t arg cols isPk isUnique m2m).map (·.1) ∧ ix.isPk = isPk ∧ some ix.isUnique = isUnique
+          · rw [if_pos hsame] at hs; cases hs; exact Or.inl rfl
+          · rw [if_neg hsame] at hs
+            by_cases hc : cols = []
+            · rw [if_pos hc] at hs; cases hs
+            · rw [if_neg hc] at hs; cases hs
+        | none =>
+          simp only [hx, newIndex] at hs
+          by_cases hc : cols = []
+          · rw [if_pos hc] at hs; cases hs
+          rw [if_neg hc] at hs
+          by_cases hp : isPk ≠ .no ∧ tbl.pkSet = true
+          · rw [if_pos hp] at hs; cases hs
+          rw [if_neg hp] at hs
+          by_cases hu : isPk ≠ .no ∧ isUnique = some false
+          · rw [if_pos hu] at hs; cases hs
+          rw [if_neg hu] at hs
+          by_cases hnt : nameTaken s ((indexNameOf d t arg cols isPk isUnique m2m).map (·.1)) = true
+          · rw [if_pos hnt] at hs; cases hs
+          rw [if_neg hnt] at hs
+          cases hs
+          exact Or.inr ⟨by simpa using hnt, _, rfl⟩
+
 theorem addIndex_inv {d} {s s' : Schema} {t arg cols isPk isUnique m2m} (h : Inv s)
     (hs : addIndex d s t arg cols isPk isUnique m2m = .ok s') : Inv s' := by
-  unfold addIndex at hs
-  split at hs; · cases hs
-  split at hs; · cases hs
-  split at hs; · cases hs
-  simp only at hs
-  split at hs
-  · split at hs
-    · cases hs; exact h
-    · split at hs <;> cases hs
-  · split at hs; · cases hs
-    split at hs; · cases hs
-    split at hs; · cases hs
-    split at hs; · cases hs
-    rename_i hnt
-    cases hs
-    apply commitIndex_inv h
-    intro x hx
-    exact nameTaken_false (by simpa using hnt) x hx
+  rcases addIndex_ok hs with rfl | ⟨hnt, u, rfl⟩
+  · exact h
+  · exact commitIndex_inv h (nameTaken_false hnt)
 
 theorem addIndex_lenInv {d} {s s' : Schema} {t arg cols isPk isUnique m2m} (h : LenInv d s)
     (hs : addIndex d s t arg cols isPk isUnique m2m = .ok s') : LenInv d s' := by
-  unfold addIndex at hs
-  split at hs; · cases hs
-  split at hs; · cases hs
-  split at hs; · cases hs
-  simp only at hs
-  split at hs
-  · split at hs
-    · cases hs; exact h
-    · split at hs <;> cases hs
-  · split at hs; · cases hs
-    split at hs; · cases hs
-    split at hs; · cases hs
-    split at hs; · cases hs
-    cases hs
-    apply commitIndex_lenInv h
-    intro p hp hnorm
-    split at hp
-    · cases hp; cases hnorm
-    · split at hp
-      · cases hp
-      · cases hp; exact defaultIndexName_length ..
+  rcases addIndex_ok hs with rfl | ⟨_, u, rfl⟩
+  · exact h
+  · exact commitIndex_lenInv h (indexNameOf_len _ _ _ _ _ _ _)
 
 /-! ### addFk -/
 
@@ -346,7 +364,51 @@ theorem mem_tableNames_of_findTable {s : Schema} {n : Name} {t : Table} (h : fin
   simp only [tableNames, List.mem_map]
   exact ⟨t, h1, by simpa using h2⟩
 
-theorem addFk_inv {d} {s s' : Schema} {c n cols p pc ix} (h : Inv s) (hs : addFk d s c n cols p pc ix = .ok s') : Inv s' := by
+theorem commitFk_inv {s : Schema} {c nm cols p pc} (h : Inv s) (hn : nm.1 ∉ s.names)
+    (hc : c ∈ tableNames s) (hp : p ∈ tableNames s) : Inv (commitFk s c nm cols p pc) := by
+  constructor
+  · exact h.tablesNodup
+  · exact h.colsNodup
+  · simp only [commitFk]
+    rw [List.nodup_append]
+    refine ⟨h.namesNodup, by simp, ?_⟩
+    intro a ha b hb
+    simp at hb; subst hb
+    intro hab; subst hab
+    exact hn ha
+  · intro a
+    have := h.namesCount a
+    simp only [commitFk, objNames, List.count_append, List.filterMap_append, List.filterMap_cons, List.filterMap_nil] at this ⊢
+    omega
+  · intro f hf
+    simp only [commitFk, List.mem_append, List.mem_singleton] at hf
+    rcases hf with hf | rfl
+    · exact h.fkTables f hf
+    · exact ⟨hc, hp⟩
+
+theorem commitFk_lenInv {d} {s : Schema} {c nm cols p pc} (h : LenInv d s) (hn : nm.2 = .norm → nm.1.length ≤ maxNameLen d) :
+    LenInv d (commitFk s c nm cols p pc) := by
+  constructor
+  · exact h.tables
+  · exact h.columns
+  · exact h.indexes
+  · intro f hf x hx hsrc
+    simp only [commitFk, List.mem_append, List.mem_singleton] at hf
+    rcases hf with hf | rfl
+    · exact h.fks f hf x hx hsrc
+    · simp only [Option.some.injEq] at hx
+      subst hx
+      exact hn hsrc
+
+theorem fkNameOf_len (d c cols n) : (fkNameOf d c cols n).2 = .norm → (fkNameOf d c cols n).1.length ≤ maxNameLen d := by
+  cases n with
+  | some n => simp [fkNameOf]
+  | none => intro _; exact defaultFkName_length ..
+
+/-- a successful `add_foreign_key` commits the key under a fresh name and then possibly adds the implicit index -/
+theorem addFk_ok {d} {s s' : Schema} {c n cols p pc ix} (hs : addFk d s c n cols p pc ix = .ok s') :
+    c ∈ tableNames s ∧ p ∈ tableNames s ∧ (fkNameOf d c cols n).1 ∉ s.names ∧
+    ∃ m2m, fkIndex d (commitFk s c (fkNameOf d c cols n) cols p pc) c cols ix m2m = .ok s' := by
   unfold addFk at hs
   split at hs
   · cases hs
@@ -354,73 +416,175 @@ theorem addFk_inv {d} {s s' : Schema} {c n cols p pc ix} (h : Inv s) (hs : addFk
   rename_i ctbl ptbl hc hp
   split at hs; · cases hs
   split at hs; · cases hs
-  simp only at hs
   split at hs; · cases hs
   split at hs; · cases hs
   split at hs; · cases hs
   rename_i hnames
-  have h1 : Inv { s with names := s.names ++ [(match n with | some n => (n, Src.explicit) | none => (defaultFkName d c cols, Src.norm)).1],
-                         fks := s.fks ++ [{ table := c, name := some (match n with | some n => (n, Src.explicit) | none => (defaultFkName d c cols, Src.norm)).1,
-                                            src := (match n with | some n => (n, Src.explicit) | none => (defaultFkName d c cols, Src.norm)).2,
-                                            cols := cols, parent := p, parentCols := pc }] } := by
-    constructor
-    · exact h.tablesNodup
-    · exact h.colsNodup
-    · rw [List.nodup_append]
-      refine ⟨h.namesNodup, by simp, ?_⟩
-      intro a ha b hb
-      simp at hb; subst hb
-      intro hab; subst hab
-      exact hnames ha
-    · intro a
-      have := h.namesCount a
-      simp only [objNames, List.count_append, List.filterMap_append, List.filterMap_cons, List.filterMap_nil] at this ⊢
-      omega
-    · intro f hf
-      simp only [List.mem_append, List.mem_singleton] at hf
-      rcases hf with hf | rfl
-      · exact h.fkTables f hf
-      · exact ⟨mem_tableNames_of_findTable hc, mem_tableNames_of_findTable hp⟩
+  exact ⟨mem_tableNames_of_findTable hc, mem_tableNames_of_findTable hp, hnames, _, hs⟩
+
+theorem fkIndex_inv {d} {s s' : Schema} {c cols ix m2m} (h : Inv s) (hs : fkIndex d s c cols ix m2m = .ok s') : Inv s' := by
+  unfold fkIndex at hs
   split at hs
-  · cases hs; exact h1
+  · cases hs; exact h
   · split at hs
-    · exact addIndex_inv h1 hs
-    · cases hs; exact h1
+    · exact addIndex_inv h hs
+    · cases hs; exact h
+
+theorem fkIndex_lenInv {d} {s s' : Schema} {c cols ix m2m} (h : LenInv d s) (hs : fkIndex d s c cols ix m2m = .ok s') : LenInv d s' := by
+  unfold fkIndex at hs
+  split at hs
+  · cases hs; exact h
+  · split at hs
+    · exact addIndex_lenInv h hs
+    · cases hs; exact h
+
+theorem addFk_inv {d} {s s' : Schema} {c n cols p pc ix} (h : Inv s) (hs : addFk d s c n cols p pc ix = .ok s') : Inv s' := by
+  obtain ⟨hc, hp, hn, m2m, h2⟩ := addFk_ok hs
+  exact fkIndex_inv (commitFk_inv h hn hc hp) h2
 
 theorem addFk_lenInv {d} {s s' : Schema} {c n cols p pc ix} (h : LenInv d s) (hs : addFk d s c n cols p pc ix = .ok s') : LenInv d s' := by
-  unfold addFk at hs
-  split at hs
-  · cases hs
-  · cases hs
-  split at hs; · cases hs
-  split at hs; · cases hs
-  simp only at hs
-  split at hs; · cases hs
-  split at hs; · cases hs
-  split at hs; · cases hs
-  have h1 : LenInv d { s with names := s.names ++ [(match n with | some n => (n, Src.explicit) | none => (defaultFkName d c cols, Src.norm)).1],
-                         fks := s.fks ++ [{ table := c, name := some (match n with | some n => (n, Src.explicit) | none => (defaultFkName d c cols, Src.norm)).1,
-                                            src := (match n with | some n => (n, Src.explicit) | none => (defaultFkName d c cols, Src.norm)).2,
-                                            cols := cols, parent := p, parentCols := pc }] } := by
-    constructor
-    · exact h.tables
-    · exact h.columns
-    · exact h.indexes
-    · intro f hf x hx hsrc
-      simp only [List.mem_append, List.mem_singleton] at hf
-      rcases hf with hf | rfl
-      · exact h.fks f hf x hx hsrc
-      · cases n with
-        | some n => simp at hsrc
-        | none =>
-          simp only [Option.some.injEq] at hx
-          subst hx
-          exact defaultFkName_length ..
-  split at hs
-  · cases hs; exact h1
-  · split at hs
-    · exact addIndex_lenInv h1 hs
-    · cases hs; exact h1
+  obtain ⟨_, _, _, m2m, h2⟩ := addFk_ok hs
+  exact fkIndex_lenInv (commitFk_lenInv h (fkNameOf_len _ _ _ _)) h2
+
+/-! ### creation order -/
+
+/-- `p` is a parent table of `c` (a foreign key of `c` references `p ≠ c`) -/
+def ParentRel (s : Schema) (p c : Name) : Prop := p ∈ parents s c
+
+/-- every table is preceded by each of its parents, unless the table has an infinite chain of ancestors
+    (it lies on, or depends on, a cycle of foreign keys) -/
+def GoodOrder (s : Schema) (l : List Name) : Prop :=
+  ∀ pre c post, l = pre ++ c :: post → ∀ p ∈ parents s c, p ∈ pre ∨ ¬ Acc (ParentRel s) c
+
+theorem getLast?_split {α} {l : List α} {t : α} (h : l.getLast? = some t) : l = l.dropLast ++ [t] := by
+  rcases List.eq_nil_or_concat l with rfl | ⟨l', b, rfl⟩
+  · simp at h
+  · simp at h; subst h; simp
+
+theorem goodOrder_snoc {s : Schema} {acc : List Name} {t : Name} (h : GoodOrder s acc)
+    (ht : (∀ p ∈ parents s t, p ∈ acc) ∨ ¬ Acc (ParentRel s) t) : GoodOrder s (acc ++ [t]) := by
+  intro pre c post heq p hp
+  rcases List.eq_nil_or_concat post with rfl | ⟨post', x, rfl⟩
+  · have := List.append_inj' heq (by simp)
+    obtain ⟨h1, h2⟩ := this
+    simp at h2; subst h2; subst h1
+    rcases ht with ht | ht
+    · exact Or.inl (ht p hp)
+    · exact Or.inr ht
+  · have heq' : acc ++ [t] = (pre ++ c :: post') ++ [x] := by simpa using heq
+    obtain ⟨h1, _⟩ := List.append_inj' heq' (by simp)
+    exact h pre c post' h1 p hp
+
+theorem not_acc_of_closed {s : Schema} {todo acc : List Name}
+    (hclosed : ∀ t ∈ todo, ∀ p ∈ parents s t, p ∈ acc ∨ p ∈ todo)
+    (hnone : todo.find? (ready s acc) = none) : ∀ t, Acc (ParentRel s) t → t ∉ todo := by
+  intro t hacc
+  induction hacc with
+  | intro t _ ih =>
+    intro ht
+    have hnr := (List.find?_eq_none.mp hnone) t ht
+    simp only [ready, List.all_eq_true, Bool.not_eq_true] at hnr
+    have : ∃ p ∈ parents s t, p ∉ acc := by
+      apply Classical.byContradiction
+      intro hcon
+      apply hnr
+      intro p hp
+      simp only [List.contains_iff_mem]
+      apply Classical.byContradiction
+      intro hpa
+      exact hcon ⟨p, hp, hpa⟩
+    obtain ⟨p, hp, hpa⟩ := this
+    rcases hclosed t ht p hp with h | h
+    · exact hpa h
+    · exact ih p hp h
+
+theorem orderLoop_spec (s : Schema) : ∀ (fuel : Nat) (todo acc : List Name), todo.length ≤ fuel →
+    (∀ t ∈ todo, ∀ p ∈ parents s t, p ∈ acc ∨ p ∈ todo) → GoodOrder s acc →
+    (orderLoop s fuel todo acc).Perm (acc ++ todo) ∧ GoodOrder s (orderLoop s fuel todo acc) := by
+  intro fuel
+  induction fuel with
+  | zero =>
+    intro todo acc hlen _ hg
+    have : todo = [] := List.eq_nil_of_length_eq_zero (by omega)
+    subst this
+    simp [orderLoop, hg]
+  | succ fuel ih =>
+    intro todo acc hlen hclosed hg
+    simp only [orderLoop]
+    cases hf : todo.find? (ready s acc) with
+    | some t =>
+      simp only
+      have htm : t ∈ todo := List.mem_of_find?_eq_some hf
+      have hr : ready s acc t = true := List.find?_some hf
+      have hpar : ∀ p ∈ parents s t, p ∈ acc := by
+        intro p hp
+        simp only [ready, List.all_eq_true] at hr
+        simpa using hr p hp
+      have hperm : (acc ++ [t] ++ todo.erase t).Perm (acc ++ todo) := by
+        rw [List.append_assoc]
+        exact List.Perm.append_left _ (List.perm_cons_erase htm).symm
+      have := ih (todo.erase t) (acc ++ [t])
+        (by rw [List.length_erase_of_mem htm]; omega)
+        (by
+          intro t' ht' p hp
+          rcases hclosed t' (List.mem_of_mem_erase ht') p hp with h | h
+          · exact Or.inl (by simp [h])
+          · have : p ∈ acc ++ [t] ++ todo.erase t := (hperm.mem_iff).mpr (by simp [h])
+            simp only [List.mem_append] at this ⊢
+            rcases this with (h1 | h1) | h1
+            · exact Or.inl (Or.inl h1)
+            · exact Or.inl (Or.inr h1)
+            · exact Or.inr h1)
+        (goodOrder_snoc hg (Or.inl hpar))
+      exact ⟨this.1.trans hperm, this.2⟩
+    | none =>
+      simp only
+      cases hl : todo.getLast? with
+      | none =>
+        have : todo = [] := List.getLast?_eq_none_iff.mp hl
+        subst this
+        simp [hg]
+      | some t =>
+        simp only
+        have hsplit := getLast?_split hl
+        have htm : t ∈ todo := by rw [hsplit]; simp
+        have hna : ¬ Acc (ParentRel s) t := fun hacc => not_acc_of_closed hclosed hf t hacc htm
+        have hperm : (acc ++ [t] ++ todo.dropLast).Perm (acc ++ todo) := by
+          rw [List.append_assoc]
+          apply List.Perm.append_left
+          conv => rhs; rw [hsplit]
+          exact List.perm_append_comm
+        have := ih todo.dropLast (acc ++ [t])
+          (by rw [List.length_dropLast]; omega)
+          (by
+            intro t' ht' p hp
+            have ht'' : t' ∈ todo := by rw [hsplit]; simp [ht']
+            have : p ∈ acc ++ [t] ++ todo.dropLast := (hperm.mem_iff).mpr (by
+              rcases hclosed t' ht'' p hp with h | h <;> simp [h])
+            simp only [List.mem_append] at this ⊢
+            rcases this with (h1 | h1) | h1
+            · exact Or.inl (Or.inl h1)
+            · exact Or.inl (Or.inr h1)
+            · exact Or.inr h1)
+          (goodOrder_snoc hg (Or.inr hna))
+        exact ⟨this.1.trans hperm, this.2⟩
+
+theorem mem_parents {s : Schema} {t p : Name} (h : p ∈ parents s t) : ∃ f ∈ s.fks, f.table = t ∧ f.parent = p ∧ p ≠ t := by
+  simp only [parents, tableFks, List.mem_map, List.mem_filter] at h
+  obtain ⟨f, ⟨⟨hf, ht⟩, hne⟩, rfl⟩ := h
+  exact ⟨f, hf, by simpa using ht, rfl, by simpa using hne⟩
+
+theorem orderTables_spec {s : Schema} (h : Inv s) :
+    (orderTablesToCreate s).Perm (tableNames s) ∧ GoodOrder s (orderTablesToCreate s) := by
+  unfold orderTablesToCreate
+  have hsort := List.mergeSort_perm (tableNames s) nameLe
+  have := orderLoop_spec s ((tableNames s).mergeSort nameLe).length ((tableNames s).mergeSort nameLe) [] (Nat.le_refl _)
+    (by
+      intro t _ p hp
+      obtain ⟨f, hf, _, rfl, _⟩ := mem_parents hp
+      exact Or.inr ((hsort.mem_iff).mpr (h.fkTables f hf).2))
+    (by intro pre c post heq; simp at heq)
+  exact ⟨by simpa using this.1.trans (by simpa using hsort), this.2⟩
 
 /-! ### operation lists -/
 
